@@ -1,5 +1,19 @@
 import re,sys,collections
-src=open(sys.argv[1]).read()
+"""usage: mkaudit.py Gen/PanicSites.v [PanicSites-of-another-accepted-tree.v ...] [--splice coq/Properties/C06.v]
+Prints (or splices into Properties/C06.v) covered_table / audit_table for the sites of the first file; the
+fingerprints of the audited functions are the union over all given files (e.g. the tree with pending fixes applied)."""
+args=[a for a in sys.argv[1:] if not a.startswith('--')]
+splice=None
+if '--splice' in sys.argv:
+    splice=sys.argv[sys.argv.index('--splice')+1]; args=[a for a in args if a!=splice]
+src=open(args[0]).read()
+fps={}
+for a in args:
+    m=re.search(r'Definition fn_fingerprints.*?:= \[(.*?)\n\]\.',open(a).read(),re.S)
+    for fn,h in re.findall(r'\("([^"]*)", "([^"]*)"\)',m.group(1)):
+        fps.setdefault(fn,[])
+        if h not in fps[fn]: fps[fn].append(h)
+PINNED_KINDS={"quo","div","sub","newcoin","panic","index"}
 rows=re.findall(r'^  \("([^"]*)", "([^"]*)", "([^"]*)", "([^"]*)"',src,re.M)
 cnt=collections.OrderedDict()
 for f,fn,key,kind in rows:
@@ -7,8 +21,8 @@ for f,fn,key,kind in rows:
 covered={
  ("x/gov.processProposal","panic"):"Halt.process_quorum (IsQuorum error => panic): reachable, findings votes-gt-voters / quorum-gt-1; the 'proposal was expected to exist' panic is unreachable (queue entries are written together with the proposal, proposals are never deleted)",
  ("x/gov.processPoll","panic"):"Halt.process_quorum: reachable, finding processPoll:votes-gt-voters; GetPoll error unreachable (polls are never deleted)",
- ("x/spending/keeper.Keeper.EndBlocker","quo"):"Halt.spend_pool_step (dquo): reachable, finding EndBlocker:div-by-zero",
- ("x/spending/keeper.Keeper.EndBlocker","newcoin"):"Halt.new_dec_coin: reachable, finding EndBlocker:neg-deccoin",
+ ("x/spending/keeper.Keeper.EndBlocker","quo"):"Halt.spend_pool_step: guarded since fix 2d6ac44 (denominator positive), C06_spend_endblock_never_panics; flag spend_endblock_guarded regenerated from the tree",
+ ("x/spending/keeper.Keeper.EndBlocker","newcoin"):"Halt.new_dec_coin: rate = non-negative deposit / positive denominator since fix 2d6ac44",
  ("x/spending/keeper.Keeper.ClaimSpendingPool","sub"):"Halt.claim (Coins.Sub): reachable through SpendingPoolDistribution.Apply, finding ClaimSpendingPool:neg-coin",
  ("x/spending/keeper.Keeper.ClaimSpendingPool","newcoin"):"Halt.claim (NewCoin of a negative amount): reachable with a negative beneficiary weight, same finding class neg-coin",
  ("x/spending.ApplySpendingPoolWithdrawProposalHandler.Apply","sub"):"Halt.withdraw_loop: reachable, finding Withdraw.Apply:neg-coin",
@@ -26,10 +40,10 @@ over={
  ("x/gov/types.ProposalRouter.AllowedAddressesDynamicProposal","panic"):"unreachable: same content type already routed at submission (state-independent, input_only_panics_filtered)",
  ("x/gov/types.ProposalRouter.QuorumDynamicProposal","panic"):"unreachable: same content type already routed at submission (state-independent)",
  ("x/gov/keeper.Keeper.GetNetworkActorOrFail","panic"):"unreachable: permission/role index entries are written and removed together with the actor record (C07 refinement)",
- ("x/gov/keeper.Keeper.GetAverageVotesSlash","quo"):"guarded: divides by the number of votes only when it is non-zero",
+ ("x/gov/keeper.Keeper.GetAverageVotesSlash","quo"):"guarded: returns zero when there is no Yes vote (totalCount == 0) before dividing by the Yes-vote count; exercised by the gov-vote-patterns histories (every vote pattern, run past the enactment end)",
  ("x/gov/types.CalculatedVotes.ProcessResult","div"):"float32 division: no panic (C08 covers the result)",
  ("x/gov/types.CalculatedPollVotes.ProcessResult","div"):"float32 division: no panic",
- ("x/gov/types.CalculatedPollVotes.ProcessResult","quo"):"Dec division by the number of voters, non-zero once quorum is reached with a positive VoteQuorum; with VoteQuorum = 0 and no actors: suspected, not reproduced",
+ ("x/gov/types.CalculatedPollVotes.ProcessResult","quo"):"guarded: the division by actorsWithVeto is inside if actorsWithVeto != 0; exercised by the gov-poll-patterns histories (incl. a poll for a member-less role)",
  ("x/distributor/keeper.Keeper.AllocateTokens","panic"):"unreachable: minting to the mint module / transfer of the amount just minted",
  ("x/distributor/keeper.Keeper.AllocateTokens","sub"):"guarded by IsAllGTE / sdk.Int.Sub does not panic",
  ("x/distributor/keeper.Keeper.AllocateTokens","newcoin"):"amounts are products of non-negative values and a commission in [1%,50%] (MsgUpsertStakingPool.ValidateBasic); dead code on the pinned tree (votes are wiped in EndBlocker, C10 finding, so power = 0)",
@@ -74,9 +88,17 @@ for (fn,kind),n in cnt.items():
     else: aud.append((fn,kind,n,over.get((fn,kind),default[kind])))
 missing=[k for k in covered if k not in cnt]+[k for k in over if k not in cnt]
 if missing: print("(* WARNING unused keys: %s *)"%missing, file=sys.stderr)
-def emit(name,l):
-    print("Definition %s : list (string * string * nat * string) := ["%name)
-    print(";\n".join("  (%s, %s, %d%%nat, %s)"%(q(a),q(b),c,q(d)) for a,b,c,d in l))
-    print("].")
-emit("covered_table",cov)
-emit("audit_table",aud)
+out=[]
+def emit(name,l,pin):
+    out.append("Definition %s : list (string * string * nat * string * list string) := ["%name)
+    out.append(";\n".join("  (%s, %s, %d%%nat, %s, [%s])"%(q(a),q(b),c,q(d),"; ".join(q(h) for h in (fps.get(a,[]) if pin and b in PINNED_KINDS else []))) for a,b,c,d in l))
+    out.append("].")
+emit("covered_table",cov,False)
+emit("audit_table",aud,True)
+text="\n".join(out)+"\n"
+if splice:
+    t=open(splice).read()
+    i=t.index("Definition covered_table"); j=t.index("Definition entry_matches")
+    open(splice,'w').write(t[:i]+text+"\n"+t[j:])
+else:
+    print(text)
